@@ -3285,8 +3285,10 @@ class Parameters:
                 # dealing with object and it's been set on this object
                 value = cls_or_slf._param__private.values[name]
             else:
-                # dealing with class or isn't set on the object
-                value = param_obj.default
+                # dealing with class or isn't set on the object: the value is
+                # the class-level default (param_obj may be an instance-level
+                # copy made before the class default was last changed)
+                value = self_._cls_parameters[name].default
 
         return value
 
